@@ -123,7 +123,135 @@ def w_pure(cfg, tier):
     return col.result()
 
 
+def w_sweep(cfg, tier):
+    """Sweep decoders (randomised): the caller's syndrome array is not modified by decode(), for the
+    syndromes of all Pauli errors supported on a small window of qubits (Z and X parts symbolic)."""
+    mods = _install()
+    import panqec.decoders.sweepmatch._sweep_decoder_3d as s3
+    import panqec.decoders.sweepmatch._rotated_sweep_decoder as rs
+    install(s3, rs)
+    from symx.stubs import SymRng
+    from panqec.error_models import PauliErrorModel
+    parts = cfg.split(' ')
+    code = common.make_code(parts[1])
+    which = parts[2]                       # sweep | sweepmatch
+    window = [int(x) for x in parts[3].split(',')]
+    n = code.n
+    code.stabilizer_matrix, code.x_indices, code.z_indices
+    rotated = type(code).__name__.startswith('Rotated')
+    col = hz.Collector(cfg)
+    if which == 'sweep':
+        Dec = rs.RotatedSweepDecoder3D if rotated else s3.SweepDecoder3D
+    else:
+        Dec = mods['rsmd'].RotatedSweepMatchDecoder if rotated else mods['smd'].SweepMatchDecoder
+    col.encoded(Dec.decode, (rs.RotatedSweepDecoder3D if rotated else s3.SweepDecoder3D).get_initial_state,
+                (rs.RotatedSweepDecoder3D if rotated else s3.SweepDecoder3D).sweep_move)
+    ZB = {q: z3.Bool(f'z_{q}') for q in window}
+    XB = {q: z3.Bool(f'x_{q}') for q in window[:1]}
+    md = mods['md']
+    old = md.Matching
+    md.Matching = MatchStub
+    eng = Engine(name=cfg, max_paths=4000, max_decisions=20000)
+    try:
+        with eng:
+            def fn():
+                dec = Dec(code, PauliErrorModel(1 / 3, 1 / 3, 1 / 3), 0.1)
+                sw = dec.sweeper if which == 'sweepmatch' else dec
+                sw._rng = SymRng('tie')
+                if hasattr(sw, 'max_sweep_factor'):
+                    sw.max_sweep_factor = 2          # bound the automaton (unrolling bound)
+                if hasattr(sw, 'max_rounds'):
+                    sw.max_rounds = 1
+                e = [0] * (2 * n)
+                for q, b in ZB.items():
+                    e[n + q] = Bit(b)
+                for q, b in XB.items():
+                    e[q] = Bit(b)
+                s = code.measure_syndrome(as_sa(e))
+                before = snapshot(s)
+                c = dec.decode(s)
+                return before, snapshot(s), np.asarray(c).shape
+            ps = eng.explore(fn)
+    finally:
+        md.Matching = old
+    col.absorb(eng)
+
+    def wit(m):
+        return dict(z={str(q): (1 if z3.is_true(m.eval(b, model_completion=True)) else 0) for q, b in ZB.items()},
+                    x={str(q): (1 if z3.is_true(m.eval(b, model_completion=True)) else 0) for q, b in XB.items()},
+                    sweep=which)
+    bad, bshape = [], []
+    for p in ps:
+        if p.exc is not None:
+            r, m, dt = col.solve(p.pc)
+            col.record('C06/sweep/no-exception', r, dt, True, wit(m) if m else None, f'{type(p.exc).__name__}: {p.exc}')
+            continue
+        before, after, shape = p.value
+        bad.append(z3_and(p.pc + [z3.Not(same_cells(before, after))]))
+        bshape.append(z3_and(p.pc + [z3.BoolVal(shape != (2 * n,))]))
+    col.prove(f'C06/{which}/caller-syndrome-not-modified', [], z3_or(bad), wit,
+              f'{len(ps)} paths: syndromes of all errors with Z part on qubits {window} and X part on qubit {window[:1]}; '
+              'all tie-break draws; automaton bounded to 2 sweeps per unit size / 1 round')
+    col.prove(f'C06/{which}/returns-length-2n', [], z3_or(bshape), wit)
+    return col.result()
+
+
+def w_xcube(cfg, tier):
+    """XCubeMatchingDecoder: its control flow is the syndrome, so the error window is REALISED (the solver
+    enumerates the 2^w window errors) and the real decoder with the real engines runs on each."""
+    from panqec.decoders import XCubeMatchingDecoder
+    from panqec.error_models import PauliErrorModel
+    parts = cfg.split(' ')
+    code = common.make_code(parts[1])
+    window = [int(x) for x in parts[2].split(',')]
+    n = code.n
+    col = hz.Collector(cfg)
+    col.encoded(XCubeMatchingDecoder.decode)
+    dec = XCubeMatchingDecoder(code, PauliErrorModel(1 / 3, 1 / 3, 1 / 3), 0.1)
+    ZB = {q: z3.Bool(f'z_{q}') for q in window}
+    XB = {q: z3.Bool(f'x_{q}') for q in window[:2]}
+    eng = Engine(name=cfg, max_paths=200)
+    with eng:
+        def fn():
+            e = np.zeros(2 * n, dtype=np.uint8)
+            for q, b in ZB.items():
+                e[n + q] = int(Bit(b))           # realised
+            for q, b in XB.items():
+                e[q] = int(Bit(b))
+            s = code.measure_syndrome(e)
+            keep = s.copy()
+            s1 = code.measure_syndrome(np.roll(e, 1))
+            dec.decode(s1)                       # an earlier call on the same object
+            c = np.asarray(dec.decode(s))
+            fresh = np.asarray(XCubeMatchingDecoder(code, PauliErrorModel(1 / 3, 1 / 3, 1 / 3), 0.1).decode(keep.copy()))
+            return bool((keep != s).any()), c.shape, bool((c != fresh).any())
+        ps = eng.explore(fn)
+    col.absorb(eng)
+
+    def wit(m):
+        return dict(z={str(q): (1 if z3.is_true(m.eval(b, model_completion=True)) else 0) for q, b in ZB.items()},
+                    x={str(q): (1 if z3.is_true(m.eval(b, model_completion=True)) else 0) for q, b in XB.items()},
+                    sweep='xcube')
+    bad, bpure = [], []
+    for p in ps:
+        if p.exc is not None:
+            r, m, dt = col.solve(p.pc)
+            col.record('C06/xcube/no-exception', r, dt, True, wit(m) if m else None, f'{type(p.exc).__name__}: {p.exc}')
+            continue
+        modified, shape, differs = p.value
+        bad.append(z3_and(p.pc + [z3.BoolVal(modified or shape != (2 * n,))]))
+        bpure.append(z3_and(p.pc + [z3.BoolVal(differs)]))
+    col.prove('C06/xcube/caller-syndrome-not-modified', [], z3_or(bad), wit,
+              f'{len(ps)} realised window errors (Z on {window}, X on {window[:2]}), real engines')
+    col.prove('C06/xcube/reused-decoder-equals-fresh-decoder', [], z3_or(bpure), wit)
+    return col.result()
+
+
 def worker(cfg, tier='quick'):
+    if cfg.startswith('xcubedec'):
+        return w_xcube(cfg, tier)
+    if cfg.startswith('sweepdec'):
+        return w_sweep(cfg, tier)
     return w_pure(cfg, tier)
 
 
@@ -138,6 +266,32 @@ def replay(path):
     parts = cfg.split(' ')
     code = common.make_code(parts[1])
     bad = False
+    if cfg.startswith('sweepdec') or cfg.startswith('xcubedec'):
+        from panqec.decoders import SweepDecoder3D, RotatedSweepDecoder3D, SweepMatchDecoder, RotatedSweepMatchDecoder
+        rotated = type(code).__name__.startswith('Rotated')
+        from panqec.decoders import XCubeMatchingDecoder
+        Dec = {('xcube', False): XCubeMatchingDecoder, ('sweep', False): SweepDecoder3D, ('sweep', True): RotatedSweepDecoder3D,
+               ('sweepmatch', False): SweepMatchDecoder, ('sweepmatch', True): RotatedSweepMatchDecoder}[(w['sweep'], rotated)]
+        try:
+            n = code.n
+            e = np.zeros(2 * n, dtype=np.uint8)
+            for q, b in w['z'].items():
+                e[n + int(q)] = b
+            for q, b in w['x'].items():
+                e[int(q)] = b
+            for seed in range(4):
+                dec = Dec(code, PauliErrorModel(1 / 3, 1 / 3, 1 / 3), 0.1)
+                s = code.measure_syndrome(e)
+                keep = s.copy()
+                dec.decode(s)
+                if (keep != s).any():
+                    print('syndrome before', keep.tolist(), 'after decode', s.tolist())
+                    bad = True
+        except Exception as ex:
+            print('exception on replay:', type(ex).__name__, ex)
+            bad = True
+        print('REPLAY', 'reproduced' if bad else 'not-reproduced', oid, cfg)
+        return 0
     try:
         rx, ry = float(Fraction(w['rx'])), float(Fraction(w['ry']))
         e1, e2 = np.array(w['first'], dtype=np.uint8), np.array(w['second'], dtype=np.uint8)
@@ -174,6 +328,13 @@ def replay(path):
 def configs(tier):
     out = ['matching Toric2DCode(2,2)', 'matching RotatedPlanar2DCode(2,3)', 'bposd RotatedPlanar2DCode(2,2) noupdate',
            'bposd RotatedPlanar2DCode(2,2) update', 'bposd Toric2DCode(2,2)/XY noupdate', 'bposd Planar2DCode(2,2) update']
+    out += ['xcubedec XCubeCode(2,2,2) 0,5,13']
+    out += ['sweepdec Toric3DCode(2,2,2) sweep 0,5,13', 'sweepdec Planar3DCode(2,2,2) sweep 0,3,7',
+            'sweepdec RotatedPlanar3DCode(2,2,2) sweep 0,2,5', 'sweepdec Toric3DCode(2,2,2) sweepmatch 0,5,13',
+            'sweepdec RotatedPlanar3DCode(2,2,2) sweepmatch 0,2,5']
+    if tier != 'quick':
+        out += ['sweepdec Toric3DCode(2,3,2) sweep 1,8,20', 'sweepdec Planar3DCode(2,3,2) sweepmatch 0,4,9',
+                'sweepdec RotatedToric3DCode(2,2,2) sweep 0,4,7']
     if tier != 'quick':
         out += ['matching Planar2DCode(3,3)', 'matching Toric2DCode(3,3)', 'bposd Toric2DCode(2,2) noupdate',
                 'bposd RotatedPlanar2DCode(2,2)/XZZX/x noupdate', 'bposd RotatedPlanar3DCode(2,2,2) noupdate']
@@ -200,7 +361,8 @@ def main(argv=None):
                     decoders='MatchingDecoder, BeliefPropagationOSDDecoder (CSS / non-CSS, channel_update on / off)'),
         stubs=['pymatching.Matching -> MatchStub', 'ldpc.BpOsdDecoder -> OsdStub'],
         outside=['union-find, XCube matching and MBP decoders (their internals are not encoded)',
-                 'the randomised sweep decoders: their validity from an arbitrary rng state is C10\'s step invariant'])
+                 'sweep decoders: only "the caller\'s syndrome is not modified" is decided here, on a 3-qubit error '
+                 'window with the automaton bounded; their validity from an arbitrary rng state is C10\'s step invariant'])
 
 
 if __name__ == '__main__':
